@@ -80,6 +80,26 @@ def check(o1, o2, order):
             leaf = k.split(".")[-1]
             if leaf not in repr(inst):
                 msgs.append(f"repr({cls.__name__}({o1})) = {inst!r} does not show key {k}")
+    # defining a subclass that overrides an annotated member with a constant leaves the parent class untouched
+    from labrea import datasetclass as _dc, Option as _Opt
+
+    @_dc
+    class Base:
+        flag: bool = True
+        rate: int = _Opt("RATE", 3)
+
+    before = (Base.keys({"RATE": 1}), Base({"RATE": 1}).flag, Base({"RATE": 1}).rate)
+
+    @_dc
+    class Derived(Base):
+        flag = False
+        rate = 7
+    after = (Base.keys({"RATE": 1}), Base({"RATE": 1}).flag, Base({"RATE": 1}).rate)
+    if before != after:
+        msgs.append(f"defining a subclass changed its parent dataset class: keys/flag/rate {before} -> {after}")
+    d_ = Derived({"RATE": 1})
+    if (d_.flag, d_.rate) != (False, 7):
+        msgs.append(f"subclass overrides not in effect: flag={d_.flag!r} rate={d_.rate!r}")
     return msgs
 
 
